@@ -315,7 +315,10 @@ func (w *adWorld) step(op int) {
 		}
 		w.r.Fault("reopen")
 		w.disturbed = true
-		w.checkAll("after-reopen")
+		w.quietLeases()
+		if !w.stop() {
+			w.checkAll("after-reopen")
+		}
 		return
 	case 6:
 		w.opCrash(op, c)
@@ -326,6 +329,61 @@ func (w *adWorld) step(op int) {
 	}
 	if !w.stop() {
 		w.checkChannel(c, w.r.Tape.Intn(3) == 0)
+	}
+}
+
+// quietLeases: right after the MessageDB side was (re)opened no channel has
+// recovered its log end yet. For some channels the sole lease is then used only
+// for operations that never look at the log end (forward committed read, log
+// read, message lookup, a non-advancing checkpoint through the lease or through
+// the factory's batch entry point with its transient lease), closed and
+// reacquired - the first Load / append of the new lease must still see the log.
+func (w *adWorld) quietLeases() {
+	tp := w.r.Tape
+	for _, c := range w.ch {
+		mode := tp.Intn(4) // 0 = not for this channel
+		if mode == 0 {
+			continue
+		}
+		s := c.sides[sideDB]
+		ref := s.ref
+		w.r.Logf("  %s quiet lease (mode %d): reads/lookups only, then close and reacquire", c.key, mode)
+		lg, err := s.store.ReadLog(w.ctx, ReadLogRequest{FromOffset: 1, MaxBytes: 1 << 30})
+		if err != nil {
+			w.violate(adV(s, "read-log:error", "ReadLog(%s,1..): %v", c.key, err))
+			return
+		}
+		if v := rowsProblem(s, "read-log", ref.sorted(), lg.Records); v != nil {
+			w.violate(v)
+			return
+		}
+		if rows := ref.sorted(); len(rows) > 0 {
+			r := rows[len(rows)-1]
+			if m, ok, err := s.store.(MessageLookup).LookupMessageByID(w.ctx, r.ID); err != nil || !ok || msgDiff(c, r, m) != "" {
+				w.violate(adV(s, "lookup-message-id:missing", "LookupMessageByID(%s,%d) = found %v err %v %s", c.key, r.ID, ok, err, msgDiff(c, r, m)))
+				return
+			}
+			s.store.ReadCommitted(w.ctx, ReadCommittedRequest{FromSeq: 1, MaxSeq: r.Index, Limit: 2, MaxBytes: 1 << 20})
+		}
+		hw := minUint64(ref.hw, ref.leo)
+		switch mode {
+		case 2:
+			s.store.StoreCheckpoint(w.ctx, ch.Checkpoint{HW: hw})
+		case 3:
+			s.store.Close()
+			s.store = nil
+			w.db.StoreCheckpointBatch(w.ctx, []StoreCheckpointBatchItem{{ChannelKey: c.key, ChannelID: c.id, Checkpoint: ch.Checkpoint{HW: hw}}})
+		}
+		if s.store != nil {
+			s.store.Close()
+		}
+		st, err := w.db.ChannelStore(c.key, c.id)
+		if err != nil {
+			w.r.Infra("reacquire %s: %v", c.key, err)
+			return
+		}
+		s.store = st
+		w.r.Probe("lease.quiet_cycle")
 	}
 }
 
